@@ -347,6 +347,8 @@ func (d *Device) ProcessEvents(inputEvents <-chan *input.InputEvent) {
 	cancel()
 	log.Info("input events closed", d.logFields(logger.Debug)...)
 
+	// the LED loop may still be reading the trackers: clean up under the same mutex as event processing
+	d.eventProcessMutex.Lock()
 	if len(d.noteTracker) > 0 || len(d.analogNoteTracker) > 0 {
 		log.Info("active midi notes cleanup", d.logFields(logger.Debug)...)
 	}
@@ -368,6 +370,7 @@ func (d *Device) ProcessEvents(inputEvents <-chan *input.InputEvent) {
 	for identifier := range d.analogNoteTracker {
 		d.AnalogNoteOff(identifier, &input.InputEvent{})
 	}
+	d.eventProcessMutex.Unlock()
 
 	log.Info("virtual midi device waiting...", d.logFields(logger.Debug)...)
 	wg.Wait()
